@@ -110,3 +110,28 @@ func TestGovcReplayExprCorpus(t *testing.T) {
 	}
 	fmt.Println("NOT-REPRODUCED: the expression corpus parses to the documented postfix forms")
 }
+
+// TestGovcReplayDateLiterals: C14 — a date literal is RFC 3339 text: with a zone
+// designator it is accepted, without one (or otherwise malformed) it is reported.
+func TestGovcReplayDateLiterals(t *testing.T) {
+	for _, good := range []string{"2030-12-31T12:59:59Z", "2030-12-31T12:59:59+07:00", "2019-12-04T09:46:41.5Z"} {
+		if _, err := FromStringFact("time(" + good + ")"); err != nil {
+			fmt.Printf("REPRODUCED: the RFC 3339 date literal %s is refused: %v\n", good, err)
+			t.Fail()
+			return
+		}
+	}
+	for _, bad := range []string{"2030-12-31T12:59:59", "2030-12-31T12:59:59.5", "2030-13-31T12:59:59Z"} {
+		if f, err := FromStringFact("time(" + bad + ")"); err == nil {
+			fmt.Printf("REPRODUCED: the malformed date literal %s (not RFC 3339) is accepted as %v\n", bad, f)
+			t.Fail()
+			return
+		}
+		if _, err := FromStringCheck("check if time($t), $t <= " + bad); err == nil {
+			fmt.Printf("REPRODUCED: the malformed date literal %s (not RFC 3339) is accepted inside an expression\n", bad)
+			t.Fail()
+			return
+		}
+	}
+	fmt.Println("NOT-REPRODUCED: date literals are accepted exactly when they are RFC 3339 text (corpus of 6)")
+}
